@@ -63,4 +63,45 @@ TEXT = {
         "note": NOTE_SYNC,
         "technique": "Lean 4 proof (algebraic laws of transform/rebase, decision table) + all-sync-orders correspondence check",
     },
+    "C05": {
+        "level": "Lean theorems for every batch (valid or not) and prior state: the cached batch application of apply_operations equals "
+                 "applying the operations one at a time under the documented rules (create/update/delete/missing-task rules are separate "
+                 "theorems); the batch is appended in order to the unsynchronized list; the replica invariant tasks = base ⊕ unsynchronized "
+                 "is preserved by every commit; the transaction outcome is all or nothing (given an atomic StorageTxn). Tied to the code by "
+                 "running random batches through Replica::commit_operations on both storages against the model, with the Lean judge "
+                 "recomputing the invariant from the dumps.",
+        "design_ref": "DESIGN.md §5 C05",
+        "note": "Trusted: Lean kernel + standard axioms; model tied by correspondence + judge; atomicity of a storage transaction is C06/C16's subject.",
+        "technique": "Lean 4 proof (refinement of the write-cached loop to a fold; invariant preservation) + correspondence check",
+    },
+    "C07": {
+        "level": "Lean theorems: for every accurate operation sequence and prior state, commit followed by the reversal restores tasks and "
+                 "operation log exactly (deleted tasks re-created property by property) and reports success iff a real change was undone; "
+                 "the undone operations leave the unsynchronized list (never sent); an empty or non-tail list changes nothing and reports "
+                 "false; after a sync nothing can be undone; get_undo_operations returns the batch from the last undo point. Tied to the "
+                 "code by undo / stale-undo / interleaved-sync histories on both storages.",
+        "design_ref": "DESIGN.md §5 C07",
+        "note": "Trusted as C05. Assumes accurate operations (the editing API's guarantee, C19).",
+        "technique": "Lean 4 proof (round-trip law by induction over operation lists) + correspondence check",
+    },
+    "C15": {
+        "level": "Lean theorems for every task set, prior working set (gaps, stale, deleted-outright entries) and enumeration order: after a "
+                 "rebuild exactly the pending/recurring tasks are members, slot 0 is empty; without renumbering survivors keep their index and "
+                 "newcomers come after every index in use; with renumbering no gaps and survivors keep their relative order; a commit only "
+                 "appends tasks that became pending. ('each exactly once' is checked by the judge at every dump, not yet a theorem.) Tied to "
+                 "the code on both storages by rebuild sequences in both modes.",
+        "design_ref": "DESIGN.md §5 C15",
+        "note": "Trusted as C05; storage enumeration order is an input to the model.",
+        "technique": "Lean 4 proof (list lemmas about the stored working set) + correspondence check",
+    },
+    "C20": {
+        "level": "Lean theorems: the expiry predicate spelled out (status deleted, modified parses as i64 in chrono's range, older than the "
+                 "extracted 180 days), its negative corollaries (other statuses, missing/unreadable/recent times are kept), expire deletes "
+                 "exactly the predicate's extension and records ordinary Delete operations, and a concurrent update never resurrects the "
+                 "task in either sync order. Tied to the code by expiry runs over a status x modification-time grid and delete-vs-update "
+                 "conflict groups in all sync orders.",
+        "design_ref": "DESIGN.md §5 C20",
+        "note": "Trusted as C05; now is read by the harness just before the call; the ±2 s boundary is excluded.",
+        "technique": "Lean 4 proof (decision logic stated outright; corollary of the transform rules) + correspondence check",
+    },
 }
